@@ -428,6 +428,7 @@ def execute(plan):
         traced_files.add(f)
     gc.disable()
     gc.collect()
+    core.normalise_heap()
     gc.freeze()
 
     orderings = plan['orderings']
@@ -999,18 +1000,42 @@ def job(ctx, i):
             for _ in range(3):
                 ok, r = _violates(small, v['class'], ctx['timeout'])
                 oks += 1 if ok else 0
-        body = {'format': 1, 'property': 'C16', 'verif_seed': ctx['seed'],
-                'tier': ctx['tier'], 'run': i, 'run_seed': seed,
-                'interpreter': {'PYTHONHASHSEED': os.environ.get(
-                    'PYTHONHASHSEED'), 'aslr': os.environ.get(
-                        'SIMCHECK_ASLR', 'unknown')},
-                'violation': {'class': v['class'], 'detail': detail},
-                'plan': small, 'original_ops': len(plan['ops']),
-                'replayed_ok': oks}
-        from .driver import write_replay
-        path = write_replay('C16', ctx['seed'], ctx['tier'], i, body)
-        out['violations'] = [{'class': v['class'], 'detail': detail,
+        from .driver import write_replay, cli_replay_reproduces
+
+        def body_for(p, ok_children):
+            return {'format': 1, 'property': 'C16',
+                    'verif_seed': ctx['seed'], 'tier': ctx['tier'],
+                    'run': i, 'run_seed': seed,
+                    'interpreter': {'PYTHONHASHSEED': os.environ.get(
+                        'PYTHONHASHSEED'), 'aslr': os.environ.get(
+                            'SIMCHECK_ASLR', 'unknown')},
+                    'violation': {'class': v['class'], 'detail': detail},
+                    'plan': p, 'original_ops': len(plan['ops']),
+                    'replayed_ok': ok_children}
+        path = write_replay('C16', ctx['seed'], ctx['tier'], i,
+                            body_for(small, oks))
+        # node hashes are addresses: confirm the file in a fresh interpreter
+        # as well, and fall back to the unminimised history if only that one
+        # reproduces there
+        if ctx['nviol'] > 3:
+            cli = None           # enough confirmed examples from this worker
+        else:
+            cli = cli_replay_reproduces(path)
+        if cli is False and small is not plan:
+            path = write_replay('C16', ctx['seed'], ctx['tier'], i,
+                                body_for(plan, oks))
+            cli = cli_replay_reproduces(path)
+            if cli:
+                small = plan
+            else:
+                path = write_replay('C16', ctx['seed'], ctx['tier'], i,
+                                    body_for(small, oks))
+        out['violations'] = [{'class': v['class'], 'detail': detail +
+                              ('' if cli is not False else ' [address-dependent: '
+                               'reproduced in {} of 3 forked children but '
+                               'not in a fresh interpreter]'.format(oks)),
                               'replay': path, 'replayed_ok': oks,
+                              'fresh_interpreter_replay': cli,
                               'ops': len(small['ops'])}]
     return out
 
